@@ -547,7 +547,7 @@ Section Coherence.
     Inv dead s -> guard dead ops -> run c s ops = spec_run (c_enabled c) (s_db s) ops.
   Proof.
     induction ops as [|o r IH]; intros dead s HI Hg; [reflexivity|].
-    cbn [run spec_run]. destruct o as [m|ti q|reqs|dt|k|t]; cbn [step spec_step guard] in *.
+    cbn [run spec_run]. destruct o as [m|ti q|reqs|dt|k|t|]; cbn [step spec_step guard] in *.
     - destruct Hg as [Hc Hg]. pose proof (mutate_ok dead s m HI Hc) as H.
       destruct (apply_mut m (s_db s)) as [[d' ok] id]. destruct (mutate c s m) as [[ok' id'] s1]. cbn in H.
       destruct H as (H1 & H2 & H3). inversion H1; subst. f_equal. apply (IH _ _ H3 Hg).
@@ -563,6 +563,10 @@ Section Coherence.
     - match goal with |- _ :: run c ?s1 r = _ => change (s_db s) with (s_db s1); f_equal; apply (IH dead s1); [|exact Hg] end.
       destruct HI as (W & Ht & Hp). split; [exact W|]. split; cbn; [|exact Hp].
       intros t0 data a Hin. apply In_remove_gen in Hin. eauto.
+    - match goal with |- _ :: run c ?s1 r = _ => change (s_db s) with (s_db s1); f_equal; apply (IH dead s1); [|exact Hg] end.
+      destruct HI as (W & Ht & Hp). split; [exact W|]. split; cbn.
+      + intros t0 data a Hin. apply filter_In in Hin. destruct Hin as [Hin _]. eauto.
+      + intros k0 dec e Hin. apply filter_In in Hin. destruct Hin as [Hin _]. eauto.
   Qed.
 
   Lemma Inv_init t0 : Inv [] (init_st empty_db t0).
@@ -594,7 +598,7 @@ Lemma guard_of_fixed c tiof :
   forall ops dead, no_check_after_delete dead ops -> guard c tiof dead ops.
 Proof.
   intros Hk Hc. induction ops as [|o r IH]; intros dead H; [exact I|].
-  destruct o as [m|ti q|reqs|dt|k|t]; cbn in *; auto.
+  destruct o as [m|ti q|reqs|dt|k|t|]; cbn in *; auto.
   - destruct H as [H1 H2]. split; [|auto]. destruct ti; [|exact I]. split; [left; exact Hk|exact H1].
   - destruct H as [H1 H2]. split; [|auto]. eapply Forall_impl; [|exact H1].
     intros [[t|] q] Hx; cbn in *; [|exact I]. split; [left; exact Hk|exact Hx].
